@@ -45,6 +45,7 @@ fn main() {
         ("treap", "record-solo") => treap::record_solo(arg_value(&args, "--n").unwrap().parse().unwrap(), &out),
         ("treap", "record-race") => treap::record_race(seed, arg_value(&args, "--threads").unwrap().parse().unwrap(),
                                                        arg_value(&args, "--draws").unwrap().parse().unwrap(), &out),
+        ("treap", "probe") => treap::probe(args[3].parse().unwrap(), args[4].parse().unwrap()),
         ("treap", "record-shape") => treap::record_shape(seed, &tier, &out),
         ("bitset", "replay") => bitset::replay(&args[3], &out),
         ("bitset", "record") => bitset::record(seed, &tier, &out),
@@ -60,6 +61,7 @@ fn main() {
         ("f80", "record") => f80::record(seed, &tier, &out),
         ("fft", "replay") => fft::replay(&args[3], &out),
         ("fft", "record") => fft::record(seed, &tier, &out),
+        ("fft", "record-complex") => fft::record_complex(&tier, &out),
         ("mint", "record") => mint::record(seed, &tier, &out),
         ("writer", "replay") => writer::replay(&args[3], &out),
         ("writer", "record") => writer::record(seed, &tier, &out),
